@@ -26,6 +26,12 @@ pub mod hs {
     pub open spec fn stamped(fs: FileState, f: FileId) -> bool { fget(fs, f) matches Some(MTime::Stamp(_)) }
     pub open spec fn ids_in(files: GraphFiles, s: Seq<FileId>) -> bool { forall|j: int| 0 <= j < s.len() ==> ix(#[trigger] s[j]) < files.by_id.vec@.len() }
     pub open spec fn all_stamped(fs: FileState, s: Seq<FileId>) -> bool { forall|j: int| 0 <= j < s.len() ==> stamped(fs, #[trigger] s[j]) }
+    /// state already gathered is never changed by looking at more files
+    pub open spec fn fs_mono(a: FileState, b: FileState) -> bool { forall|f: FileId| #[trigger] fget(a, f) is Some ==> fget(b, f) == fget(a, f) }
+    pub open spec fn all_stated(fs: FileState, s: Seq<FileId>) -> bool { forall|j: int| 0 <= j < s.len() ==> fget(fs, #[trigger] s[j]) is Some }
+    pub open spec fn is_missing(fs: FileState, f: FileId) -> bool { fget(fs, f) == Some(MTime::Missing) }
+    /// the files a step's signature covers
+    pub open spec fn covered(b: Build, f: FileId) -> bool { gs::dirtying_ins(b).contains(f) || b.discovered_ins@.contains(f) || b.outs.ids@.contains(f) }
     pub open spec fn stamp_of(fs: FileState, f: FileId) -> std::time::SystemTime { match fget(fs, f) { Some(MTime::Stamp(t)) => t, _ => arbitrary() } }
     /// name and mtime of each listed file, in order
     pub open spec fn files_fed(files: GraphFiles, fs: FileState, s: Seq<FileId>) -> Seq<Fed>
